@@ -588,8 +588,8 @@ def run_case(desc):
         if mkind == "shared" and any(k.startswith("M.m0") for k in m.leaves):
             shared.add(_shared_leaf(a))      # the A leaf that M is built from
     with torch.no_grad():
-        A0 = a.dense(leaves)
-        M0 = m.dense(leaves) if m is not None else None
+        A0 = a.dense(leaves).detach()
+        M0 = m.dense(leaves).detach() if m is not None else None
     BA_eff = tuple(A0.shape[:-2])
     BM_eff = tuple(M0.shape[:-2]) if M0 is not None else ()
     try:
